@@ -7,7 +7,8 @@ A case is JSON-able:
   spec = {'name', 'cls': 'L'|'IO'|'HIO'|'PIN', 'export': bool, 'poll': bool, 'writes': [pname],
           'atts': [[aname, target|None, mandatory, kind]], 'te': [aname], 'ti': [aname], 'fe': bool, 'fi': bool,
           'uri': str|None, 'scan': [name], 'delay': seconds,
-          'wfail': [[pname, exception class name]]}      start-up faults: write_<pname> raises (optional field)
+          'wfail': [[pname, exception class name]],      start-up faults: write_<pname> raises (optional field)
+          'rfail': class name|None, 'pfail': class name|None}    initialReads / the first poll raises (optional fields)
 kinds: 0 = any Module, 1 = Communicator.  'HIO' is a frappy.io.HasIO user (attachment `io`, optional `uri`).
 
 The real `Server._processCfg` is run (unbound, on a stub carrying exactly the attributes it reads) inside a managed thread of
@@ -83,16 +84,23 @@ class Instr:
         _ev('shutdown', self.name)
         super().shutdownModule()
 
+    def initialReads(self):
+        _ev('initread', self.name)
+        super().initialReads()
+        _raise_fault(self.name, _state.specs.get(self.name, AUTO_SPEC).get('rfail'))
+
     def read_pv(self):
         if _state.shutdown_seen:
             _ev('latepoll', self.name)            # a poll thread is still working after a module was shut down
         if self.name not in _state.seen_poll:
             _state.seen_poll.add(self.name)
             _ev('firstpoll', self.name)
-            d = _state.specs.get(self.name, AUTO_SPEC).get('delay') or 0
+            sp = _state.specs.get(self.name, AUTO_SPEC)
+            d = sp.get('delay') or 0
             if d:
                 import frappy.modulebase
                 frappy.modulebase.time.sleep(d)
+            _raise_fault(self.name, sp.get('pfail'))
         return 0.0
 
 
@@ -101,6 +109,17 @@ def _fault(clsname):
     import frappy.errors
     cls = getattr(frappy.errors, clsname, None) or {'RuntimeError': RuntimeError, 'ValueError': ValueError}[clsname]
     return cls('injected fault')
+
+
+COMM_CLASSES = ('CommunicationFailedError', 'SilentCommunicationFailedError')
+
+
+def _raise_fault(modname, clsname):
+    """fault of the environment in initialReads / the first poll; a communication failure is part of the observation"""
+    if clsname:
+        if clsname in COMM_CLASSES:
+            _ev('comfail', modname)
+        raise _fault(clsname)
 
 
 def _make_write(pname):
@@ -384,10 +403,11 @@ def run_case(case, policy=None, max_steps=200000):
 # generators
 # =========================================================================================================
 def mkspec(name, cls='L', export=True, poll=True, writes=(), atts=(), te=(), ti=(), fe=False, fi=False, uri=None,
-           scan=(), delay=0, wfail=()):
+           scan=(), delay=0, wfail=(), rfail=None, pfail=None):
     return {'name': name, 'cls': cls, 'export': bool(export), 'poll': bool(poll), 'writes': list(writes),
             'atts': [list(a) for a in atts], 'te': list(te), 'ti': list(ti), 'fe': bool(fe), 'fi': bool(fi),
-            'uri': uri, 'scan': list(scan), 'delay': int(delay), 'wfail': [list(w) for w in wfail]}
+            'uri': uri, 'scan': list(scan), 'delay': int(delay), 'wfail': [list(w) for w in wfail], 'rfail': rfail,
+            'pfail': pfail}
 
 
 def random_write_faults(rng, writes, p):
@@ -437,7 +457,7 @@ def random_graph(rng, n, acyclic):
 
 
 VARIANTS = ['plain', 'plain', 'plain', 'plain', 'touchy', 'touchy', 'fail', 'missing', 'hio', 'hio', 'pin', 'slow',
-            'wfault', 'wfault']
+            'wfault', 'wfault', 'sfault', 'sfault']
 
 
 def build_case(rng, n, edges, variant):
@@ -451,7 +471,19 @@ def build_case(rng, n, edges, variant):
         if variant == 'touchy' and rng.random() < 0.3:
             ti = ti + ti[:1]                 # used twice
         writes = rng.choice([[], [], ['w0'], ['w1'], ['w0', 'w1']])
-        wfail = []
+        wfail, rfail, pfail = [], None, None
+        if variant == 'sfault':
+            # faults anywhere in the start-up sequence of the poll threads: writes, initial reads, first polls
+            writes = rng.choice([['w0', 'w1'], ['w0', 'w1', 'w2'], ['w1'], ['w0'], []])
+            wfail = random_write_faults(rng, writes, rng.choice([0.0, 0.3]))
+            if rng.random() < 0.35:
+                rfail = rng.choice(FAULT_CLASSES)
+            if rng.random() < 0.35:
+                pfail = rng.choice(FAULT_CLASSES)
+        elif rng.random() < 0.05:
+            rfail = rng.choice(FAULT_CLASSES)
+        elif rng.random() < 0.05:
+            pfail = rng.choice(FAULT_CLASSES)
         if variant == 'wfault':
             # start-up faults: several configured values, any of the writes refused / crashing (any position)
             writes = rng.choice([['w0', 'w1'], ['w0', 'w1', 'w2'], ['w0', 'w1', 'w2'], ['w1', 'w2'], ['w0', 'w2'], ['w1'], []])
@@ -459,11 +491,11 @@ def build_case(rng, n, edges, variant):
         elif writes and rng.random() < 0.15:
             wfail = random_write_faults(rng, writes, 0.6)
         mods.append(mkspec('m%d' % i, export=rng.random() < 0.7, poll=rng.random() < 0.7, writes=writes, atts=atts,
-                           te=te, ti=ti, wfail=wfail))
+                           te=te, ti=ti, wfail=wfail, rfail=rfail, pfail=pfail))
         if rng.random() < 0.25 and 'a4' not in [x[0] for x in atts]:
             mods[-1]['atts'].append(['a4', None, False, 0])        # optional attachment left empty
     dyn = []
-    if variant == 'wfault' and rng.random() < 0.5:
+    if variant in ('wfault', 'sfault') and rng.random() < 0.5:
         variant = 'hio'                     # ... on modules sharing the poll thread of a communicator
     if variant == 'fail' and mods:
         m = rng.choice(mods)
@@ -621,8 +653,8 @@ def features(case):
             items.append(('w', sp['name'], w))
         for w, _c in sp.get('wfail') or []:
             items.append(('wf', sp['name'], w))
-        for f in ('fe', 'fi', 'delay', 'uri'):
-            if sp[f]:
+        for f in ('fe', 'fi', 'delay', 'uri', 'rfail', 'pfail'):
+            if sp.get(f):
                 items.append((f, sp['name']))
         if not sp['export']:
             items.append(('noexport', sp['name']))
@@ -652,6 +684,8 @@ def rebuild(case, items):
                        fe=sp['fe'] and ('fe', n) in items, fi=sp['fi'] and ('fi', n) in items,
                        delay=sp['delay'] if ('delay', n) in items else 0,
                        uri=sp['uri'] if ('uri', n) in items else None,
+                       rfail=sp.get('rfail') if ('rfail', n) in items else None,
+                       pfail=sp.get('pfail') if ('pfail', n) in items else None,
                        export=('noexport', n) not in items if sp['cls'] != 'PIN' else sp['export'],
                        poll=('poll', n) in items)
             out[key].append(new)
@@ -691,6 +725,8 @@ def shrink(ctx, case, clause):
 def signature(case, clause, obs):
     """short stable description of what fails"""
     specs = case['mods'] + case.get('dyn', [])
+    if clause == 'writes_skipped_after_comm_failure':
+        return 'C15:writes_skipped_after_comm_failure'      # the clause itself is the class (decided by the Lean judge)
     if clause == 'attached_ready':
         failed = {e[1] for e in obs['errors'] if e[0] == 'init'}
         inits = set()
@@ -712,6 +748,8 @@ def signature(case, clause, obs):
         tag = 'failing-init'
     elif any(sp.get('wfail') for sp in specs):
         tag = 'write-fault'
+    elif any(sp.get('rfail') or sp.get('pfail') for sp in specs):
+        tag = 'startup-fault'
     elif obs['errors']:
         tag = 'errors'
     elif any(not sp['export'] for sp in specs if sp['cls'] != 'PIN'):
@@ -765,7 +803,7 @@ def run(ctx):
         # every variant, on 4 modules with one (quick) / three (thorough) random variants
         for n in (1, 2, 3):
             for edges in all_graphs(n):
-                for v in (['plain', 'touchy', 'fail', 'missing', 'hio', 'pin', 'slow', 'wfault'] if n > 1 else VARIANTS):
+                for v in (['plain', 'touchy', 'fail', 'missing', 'hio', 'pin', 'slow', 'wfault', 'sfault'] if n > 1 else VARIANTS):
                     yield f'n{n}', build_case(rng, n, edges, v)
         for _ in range(ctx.budget(300, 3000)):      # self loops, random schedules
             n = rng.choice([2, 3, 4])
